@@ -2,7 +2,7 @@
     function the correspondence evaluates) and the non-vacuity examples. *)
 From Coq Require Import List NArith Bool Arith Lia Permutation SetoidList Relations.
 From SK Require Import lib.LGraph lib.Mono lib.Reach lib.C01_GraphLemmas model.C06_Model lib.C06_Spec
-  proof.C06_All proof.C06_Comp proof.C06_Comps proof.C06_CompSem proof.C06_CompNoDup.
+  proof.C06_All proof.C06_Comp proof.C06_Comps proof.C06_CompSem proof.C06_CompNoDup proof.C06_Prefilter.
 Import ListNotations.
 
 Section Oracle.
@@ -108,6 +108,21 @@ Proof.
   apply andb_prop in E2. destruct E2 as [E2 E3]. apply andb_prop in E2. destruct E2 as [Ea Eb].
   apply LGraph.mem_spec in Ea. apply LGraph.mem_spec in Eb.
   split; [exact Ea|]. split; [exact Eb|]. intros ->. rewrite N.eqb_refl in E3. discriminate.
+Qed.
+
+Lemma simpleb_spec (es : list (N * N * elab)) : simpleb es = true -> simple es.
+Proof.
+  induction es as [|[[a b] x] r IH]; simpl; intros E; [constructor|].
+  apply andb_prop in E. destruct E as [E1 E2]. constructor; [|apply IH; exact E2].
+  destruct (find_edge a b r); [discriminate|reflexivity].
+Qed.
+
+(** the flag the model evaluates on every case implies the input premises of the theorems *)
+Lemma wfb_spec g : wfb g = true -> LGraph.wf g /\ gwf g.
+Proof.
+  unfold wfb. intros E. apply andb_prop in E. destruct E as [E1 E2].
+  pose proof (gwfb_spec g E1) as Hg. split; [|exact Hg].
+  apply wf_intro; [apply Hg|apply Hg|apply simpleb_spec; exact E2].
 Qed.
 
 (** ---------- non-vacuity examples ---------- *)
@@ -223,6 +238,18 @@ Example ex_prefilter_empties :
   quick_pre_filter Hx Pn 5000 = true /\ find (monos_on Hx Pn) (Cfg 0 0 5000 true true) Hx Pn = [] /\
   quick_pre_filter Hx Px 0 = true.
 Proof. repeat split; vm_compute; reflexivity. Qed.
+
+Example ex_prefilter_sound : forall m, ~ is_mono Hx Pn m.
+Proof.
+  assert (Hw : LGraph.wf Pn) by (apply wfb_spec; vm_compute; reflexivity).
+  assert (Hq : quick_pre_filter Hx Pn 5000 = true) by (vm_compute; reflexivity).
+  destruct (prefilter_sound Hx Pn 5000 Hw Hq) as [Hno|(pre & suf & E & Hlt)].
+  - exact Hno.
+  - exfalso. destruct pre as [|p [|q pre]]; simpl in E.
+    + vm_compute in Hlt. discriminate.
+    + inversion E; subst. vm_compute in Hlt. discriminate.
+    + inversion E.
+Qed.
 
 Example ex_prefilter :
   find (monos_on Hx Px) (Cfg 1 0 5000 true true) Hx Px = ex_comp.
